@@ -45,6 +45,7 @@ type Lookup struct {
 type Input struct {
 	Kind    string          `json:"kind"` // assign | malformed | special | doc
 	Asg     [4]string       `json:"assignment"`
+	AsgIRI  *[4]string      `json:"assignment_by_iri,omitempty"` // when another term with the same @id sorts first: what a lookup by IRI (and claim building) meets
 	Schema  *credgen.Schema `json:"schema"`
 	RawDoc  *string         `json:"raw_doc,omitempty"` // schema bytes handed to the lookup instead of the schema's document
 	Lookups []Lookup        `json:"lookups"`
@@ -153,6 +154,16 @@ func (g *gen) run(in *Input) (out outcome) {
 	}
 	out.doc = doc
 	wellFormed := in.Kind == "assign"
+	asgFor := func(tp string) [4]string {
+		if tp == in.Schema.TypeIRI && in.AsgIRI != nil {
+			return *in.AsgIRI
+		}
+		return in.Asg
+	}
+	claimAsg := asgFor(in.Schema.TypeIRI)
+	if in.AsgIRI != nil {
+		out.counts = append(out.counts, "observation-two-terms-one-iri")
+	}
 	// lookups
 	byKey := map[string]lobs{}
 	for _, l := range in.Lookups {
@@ -187,7 +198,7 @@ func (g *gen) run(in *Input) (out outcome) {
 		}
 		switch {
 		case wellFormed && known:
-			want, named := expectedIndex(in.Asg, l.Field)
+			want, named := expectedIndex(asgFor(l.Type), l.Field)
 			if named && (o.class != "ok" || o.idx != want) {
 				fail("c17-lookup-index", fmt.Sprintf("field %q is designated for raw slot %d; lookup gave %s %d (%s)", l.Field, want, o.class, o.idx, o.msg), l)
 			}
@@ -225,7 +236,7 @@ func (g *gen) run(in *Input) (out outcome) {
 			}
 		case in.Kind == "assign":
 			missing := false
-			for _, p := range in.Asg {
+			for _, p := range claimAsg {
 				if p != "" && v.Fields[p] == nil {
 					missing = true
 				}
@@ -241,7 +252,7 @@ func (g *gen) run(in *Input) (out outcome) {
 				break
 			}
 			// (a) every data slot holds the encoding of the field designated for it
-			for j, p := range in.Asg {
+			for j, p := range claimAsg {
 				want := new(big.Int)
 				if p != "" {
 					want = v.Fields[p]
@@ -264,6 +275,9 @@ func (g *gen) run(in *Input) (out outcome) {
 					}
 				}
 				for _, tp := range []string{in.Schema.TypeName, in.Schema.TypeIRI} {
+					if tp == in.Schema.TypeName && in.AsgIRI != nil {
+						continue // the credential's type is the IRI: the claim follows the lookup by IRI
+					}
 					o, ok := byKey[f+"\x00"+tp]
 					if !ok || o.class == "panic" {
 						continue
@@ -420,6 +434,17 @@ func (g *gen) specials() {
 	// 30 repetitions of the same lookups (map-order nondeterminism)
 	for r := 0; r < 30; r++ {
 		g.ins = append(g.ins, &Input{Kind: "special", Asg: in.Asg, Schema: s, Lookups: ls[:8]})
+	}
+	// two terms identified by the same IRI: a lookup by IRI (and claim building) meets the one whose name sorts first
+	sal := g.env.NewSchema(strp(credgen.SerAttr("price", "", "", "")))
+	sal.Extra = []credgen.ExtraType{{Name: "AaaAlias", IRI: sal.TypeIRI, Shape: "map", SerAttr: credgen.SerAttr("", "", "count", "name")},
+		{Name: "ZzzAlias", IRI: sal.TypeIRI, Shape: "array"}}
+	_ = g.env.Register(sal)
+	ali := &Input{Kind: "assign", Asg: [4]string{"price", "", "", ""}, AsgIRI: &[4]string{"", "", "count", "name"}, Schema: sal,
+		Lookups: lookupsFor(sal, fields, true), Cred: &credgen.Spec{Schema: sal}, InModel: true}
+	g.ins = append(g.ins, ali)
+	for r := 0; r < 30; r++ {
+		g.ins = append(g.ins, &Input{Kind: "assign", Asg: ali.Asg, AsgIRI: ali.AsgIRI, Schema: sal, Lookups: ali.Lookups[:10]})
 	}
 	// attribute that is not a string; merklized schema: no attribute at all
 	sn := g.env.NewSchema(nil)
@@ -659,6 +684,9 @@ func (g *gen) writeShards() error {
 				// agreement inside the model, on the recorded tables
 				for _, fp := range append(credgen.FieldPaths(), "spare") {
 					for _, tp := range []string{in.Schema.TypeName, in.Schema.TypeIRI} {
+						if tp == in.Schema.TypeName && in.AsgIRI != nil {
+							continue // two terms share the @id: only the lookup by IRI is the claim builder's
+						}
 						as = append(as, fmt.Sprintf("mka %d %d %d %s %s %s", id, c, d, f.Str(fp), f.Str(tp), coqgen.OptLimbs(out.view.Fields[fp])))
 						ag := *in
 						ag.Lookups = []Lookup{{Field: fp, Type: tp, Route: "parser"}}
@@ -715,7 +743,8 @@ func Run(cfg *common.Config) (*common.Report, error) {
 	}
 	rep.Exhaustive = true
 	rep.Notes = append(rep.Notes, "exhaustive over the 1296 slot assignments (lookups by name and IRI, and the claim's raw slots, for every one of them on the implementation; the Coq model evaluates all lookups, and the claims of every 4th assignment in the quick tier / of all in the thorough tier)",
-		"observation O3: GetFieldSlotIndex(\"\") answers the first unassigned slot; the empty string is not a field path; counted, not a failure")
+		"observation O3: GetFieldSlotIndex(\"\") answers the first unassigned slot; the empty string is not a field path; counted, not a failure",
+		"observation: when two type terms of one context share an @id, lookup by type NAME and claim building (which looks the type up by IRI and meets the term whose name sorts first) may use different attributes; lookups by IRI agree with the claim (theorem C17_name_or_iri states the side condition); counted, not a failure")
 	if err := g.writeShards(); err != nil {
 		return nil, err
 	}
